@@ -800,13 +800,14 @@ def execute(case, keep_text=False):
                 if cfg['kind'] == 'real':
                     # on the component that owns the parameter: the model's
                     # collected table keeps what it has until the next build()
-                    comps = [model._planet, model._star,
-                             model._pressure_profile,
-                             model._temperature_profile, model._chemistry] + \
-                        list(getattr(model._chemistry, '_gases', [])) + \
+                    # (gases before the chemistry, which re-exports their
+                    # parameters)
+                    comps = list(getattr(model.chemistry, '_gases', [])) + \
+                        [model.planet, model.star, model.pressure,
+                         model.temperature, model.chemistry] + \
                         list(model.contribution_list)
-                    own = [c_ for c_ in comps
-                           if n in getattr(c_, '_param_dict', {})]
+                    own = [c_ for c_ in comps if c_ is not None
+                           and n in c_.fitting_parameters()]
                     if not own:
                         continue
                     real_call(step, k, own[0].modify_bounds, n, list(op[2]))
